@@ -52,6 +52,9 @@ PROPS = {
     "C11": P("isTrivial over a symbolic type descriptor of depth <= 1 (all 26 kinds at every node, structs of <= 3 fields, arrays): trivial implies pointer-free; registry flags of the harness types; I-zero (cells in rows >= len are zero, incl. pointer-bearing columns) and zero-on-add after RemoveEntity/Remove/New/batch Remove/Shrink steps; every raw (no write barrier) copy over a pointer-bearing cell is reported by the engine as memory-safety violation in ALL harnesses",
              "depth 2 descriptors", "garbage collection running concurrently, finalizer-observed collectability (Go runtime not encodable): only the storage-level sufficient conditions are decided",
              ["zero-length arrays of pointer types are treated as pointer-bearing (conservative)"]),
+    "C14": P("generated from one template per type (tools/gen_c14.py): Map1-12 (NewEntityFn, Get, HasAll, Set, Remove, AddFn, NewBatchFn; relation index at arities 1,2,5,12), Filter/Query0-8 (Next, Entity, Get, Count, EntityAt vs UnsafeQuery; relations at 1,2,4,8), Exchange1-8 (Exchange, AddFn, Remove, ExchangeBatchFn), Observer1-4: component types of pairwise different sizes (4..48 bytes), >= 2 rows per table, symbolic values; k-th typed pointer == Unsafe.Get(e, ids[k]), values agree in both directions, effects (Has/IDs/table) equal to the ID-based call",
+             "same", "the code generator internal/generate itself (only the generated files in the tree are executed); Map batch variants beyond NewBatchFn (C06); arities are exhaustive for the listed methods",
+             level="translation_validation"),
     "C10": P("every rejected call of the C01/C04 step harnesses (dead entity: never reused and recycled id; duplicate / already present / missing component; dead or recycled relation target; exchange of same component) must panic and leave model, INV and lock state unchanged",
              "same", "batch operations (lock state covered by C07); *Unchecked accessors; typed arities > 2"),
     "C05": P("registered Filter1/Filter2 with FULLY symbolic with/without masks and symbolic relation target (filter or per query) over both shapes: the cached walk/Count equals the model set (= uncached semantics); register/unregister bookkeeping",
